@@ -200,6 +200,9 @@ func initProperties() {
 				use("RECDEPTH", "recursion budget", funcHas("generic.marshalTo")),
 				use("POOLESCAPE", "copy-out", funcHas("MarshalTo")),
 				use("LOOPPROGRESS", "loops consume", funcHas("generic.marshalTo")),
+				use("REQAFFINITY", "requiredness <-> option", inPkgs("thrift", "thrift/generic")),
+				use("ARGSWAP", "arguments in order", inPkgs("thrift", "thrift/generic", "proto/generic")),
+				use("RAWCOPYGUARD", "raw-copy shortcut guarded by descriptor identity", nil),
 			)},
 		{ID: "C12", Title: "Shared descriptors/buffers are safe for concurrent use; results are not aliased",
 			Decides: "no function reachable (VTA call graph) from a read-side entry point writes descriptor state (DESCIMMUT), a package-level variable (GLOBALWRITE), the caller's input bytes (INPUTRO) or a converter receiver — hence concurrent read-side calls share only immutable data and sync.Pool objects; pooled buffers are never returned, stored in caller-visible memory or used after Put (POOLESCAPE).",
@@ -243,6 +246,8 @@ func initProperties() {
 				use("UNKNOWNSKIP", "unknown skipped / disallow honoured", nil),
 				use("KEYSRC", "same key for unset fields", nil),
 				use("DESCIMMUT", "requires bitmap copied", nil),
+				use("REQAFFINITY", "requiredness <-> option", nil),
+				use("RAWCOPYGUARD", "raw-copy shortcut guarded by descriptor identity", nil),
 			)},
 		{ID: "C17", Title: "HTTP mapping takes each annotated field from its declared source",
 			Decides: "each annotation key maps to the type whose Request/Response calls the getter/setter of its declared source (ANNOTABLE), the first listed source with a value wins (FIRSTWINS), HTTPConv really enables mapping before flags are computed (FLAGSYNC), fallback options reach the right parameters (ARGSWAP), mapping errors are not dropped (DROPERR).",
@@ -279,6 +284,8 @@ func initProperties() {
 				use("DROPERR", "errors propagate", thriftPkg),
 				use("NEGPOLARITY", "unknown handling", thriftPkg),
 				use("UNKNOWNSKIP", "unknown skipped", thriftPkg),
+				use("ARGSWAP", "arguments in order", thriftPkg),
+				use("ADVANCEPOS", "skip helpers advance", thriftPkg),
 			)},
 		{ID: "C20", Title: "Protobuf wire codec agrees with the reference implementation",
 			Decides: "per kind, the descriptor-driven reader and writer use inverse wire primitives matching the spec incl. zig-zag (RWPAIR), unrolled varint stages follow the template (VARINTTEMPLATE), kind/wire tables = spec (KINDTABLE), option/flag arguments are passed in parameter order (ARGSWAP), map entries key=1/value=2 (MAPTAG), speculative lengths finished and writer errors propagated in WriteList/WriteMap/WriteMessageFields (SPECLENPAIR, DROPERR), no size panics (PANICARG).",
